@@ -95,22 +95,28 @@ def is_neg_zero(x):
 
 def in_listing_class(v):
     """diagram built by from_dict that lists (-inf, 0) before (1, inf) (ties in the distance from the goal are processed in
-    listing order), cycle beyond R = 1 and a target -- or intermediate target -- inside (0, 1): the cycle is parked at
-    R = -inf after (-inf, 0) has been walked and is not picked up again."""
+    listing order) and a transformation leg from beyond R = 1 to a target inside (0, 1): the cycle is parked at R = -inf
+    after (-inf, 0) has been walked and is not picked up again.  Legs: cycle -> R_goal, cycle -> R_1, R_1 -> R_goal."""
     d = v.get('diagram', {})
     if not ms.neg_inf_listed_before_beyond_one(d) or 'cycle' not in v:
         return False
+
+    def inside(g):
+        return g is not None and g != -INF and 0 < g < 1
     f, t = v['cycle']
-    if not max(f, t) < 0:
-        return False
-    goals = [v.get('R_goal'), v.get('R_1')]
-    return any(g is not None and g != -INF and 0 < g < 1 for g in goals)
+    R1 = v.get('R_1')
+    if max(f, t) < 0 and (inside(v.get('R_goal')) or inside(R1)):
+        return True
+    return R1 is not None and R1 != -INF and R1 > 1 and inside(v.get('R_goal'))
 
 
 def in_rows_class(v):
-    """matrix whose rows are not listed in the lexicographic product order of its index levels"""
-    o = v.get('order')
-    return bool(o) and o.get('perm') is not None and list(o['perm']) != sorted(o['perm'])
+    """matrix whose rows are not listed in the lexicographic (product) order of its own index levels -- rows permuted, or
+    levels reordered without re-sorting the rows"""
+    if not v.get('order'):
+        return False
+    s = ms.hist_series(v['hist_kind'], v['x_breaks'], v['y_breaks'], v['counts'], v.get('extra'), v['order'])
+    return not s.index.is_monotonic_increasing
 
 
 def in_negzero_class(v):
